@@ -1,17 +1,21 @@
 SPECIFICATION MCSpec
 CONSTANTS
   Slot = {1,2}
-  NameIds = {1}
-  FlagSet = {0,3}
-  MaxUnique = 3
+  NameIds = {}
+  FlagSet = {}
+  MaxUnique = 2
   Uids = {0}
-  Ops = {"names", "close", "match", "send"}
+  Ops = {"match", "close", "send"}
   LimNames = 3
   LimMatch = 2
   LimReplies = 2
   LimCompleted = 3
   LimPerUser = 3
+  SendTy = {4}
+  SendSer = {1}
+  SendRs = {0}
+  SendFl = {0}
 VIEW View
-INVARIANTS TypeOK QueueNoDup OnlyActiveQueued UniqueNamesDistinct UniqueNamesRecorded SenderIsOrigin RulesWithinLimit PendWithinLimit NoRulesForAbsent PendWellFormed
-PROPERTIES OwnerChangeSignalled UniqueNeverReused RefusalChangesNothing
+INVARIANTS TypeOK QueueNoDup OnlyActiveQueued ReservedNamesNeverOwned NamesWithinLimit UniqueNamesDistinct UniqueNamesRecorded SenderIsOrigin RulesWithinLimit PendWithinLimit NoRulesForAbsent PendWellFormed AtMostOneCopy OnlyLiveRecipients ErrorXorDelivery CompletedWithinLimit PerUserWithinLimit
+PROPERTIES OwnerChangeSignalled UniqueNeverReused RefusalChangesNothing UnicastToOwnerOnly BroadcastOnlyToMatching SlotOnlyForDeliveredCall NoReplyOnlyOnExpiry
 CHECK_DEADLOCK FALSE
